@@ -47,9 +47,7 @@ for dd in sorted(glob.glob(V + '/seeded/C*-m*')):
     out += "| %s | %s | %s |\n" % (os.path.basename(dd), first, how)
 out += ("\n%d are caught with a concrete failing input (or a harness crash whose replay names the inputs), %d only because a regenerated "
         "skeleton or a theorem instance no longer checks (`no-failing-input-found`: %s), %d are missed by the quick tier%s. "
-        "The tie-only one needs an input outside the fault kinds the property lists and the generators produce: partial entity data together with an "
-        "error whose path points at a nullable `@requires` input, with `ValidateRequiredExternalFields` enabled, and the tainted entity nested inside the "
-        "items of a dependent fetch (C07-m2).\n"
+        "\n"
         % (n_in, n_tie, ', '.join(tie_only) or 'none', n_miss, (' (' + ', '.join(missed) + ')') if missed else ''))
 design = open(V + '/DESIGN.md').read()
 i = design.find('\n## 9. As built')
